@@ -316,6 +316,11 @@ func TModeStubs(st map[string]StubFn) {
 		}
 		var terrs []packages.Error
 		tc := &types.Config{Importer: mapImporter(si.typPkgs), Error: func(err error) {
+			// (as go/packages reports them: position and message apart)
+			if te, ok := err.(types.Error); ok {
+				terrs = append(terrs, packages.Error{Pos: te.Fset.Position(te.Pos).String(), Msg: te.Msg, Kind: packages.TypeError})
+				return
+			}
 			terrs = append(terrs, packages.Error{Msg: err.Error(), Kind: packages.TypeError})
 		}}
 		tpkg, _ := tc.Check(si.pkgPath, fset, files, info)
